@@ -4,3 +4,4 @@ import Strengths.Props.C06
 import Strengths.Props.C09
 import Strengths.Props.C10
 import Strengths.Props.C08
+import Strengths.Props.C11
